@@ -115,18 +115,22 @@ PROPS["C12"] = dict(
 
 PROPS["C20"] = dict(
     title="Canonical formatting is idempotent and preserves meaning",
-    modules=["Kust.Props.C20"],
-    theorems=["Kust.C20.fmt_idempotent", "Kust.C20.fmt_map_perm", "Kust.C20.fmt_seq_perm", "Kust.C20.fmt_seq_order_kept",
+    modules=["Kust.Props.C20", "Kust.Props.C20b"],
+    theorems=["Kust.C20.int_or_string_untouched", "Kust.C20.string_schema_reads_as_string", "Kust.C20.string_kept_unless_typed",
+              "Kust.C20.plain_text_untouched", "Kust.C20.unknown_type_untouched", "Kust.C20.schema_value_kept", "Kust.C20.schema_idempotent",
+              "Kust.C20.fmt_idempotent", "Kust.C20.fmt_map_perm", "Kust.C20.fmt_seq_perm", "Kust.C20.fmt_seq_order_kept",
               "Kust.C20.fmtN_valueText", "Kust.C20.seqKey_fmtN", "Kust.C20.lastFieldText_perm", "Kust.Fmt.leField_trans", "Kust.Fmt.leField_total",
               "Kust.C20.field_order_expected", "Kust.C20.whitelist_expected"],
-    components=["fmt.node"],
+    components=["fmt.node", "fmt.nonstring"],
     oracle=True,
     n_corr={"quick": 3000, "thorough": 40000}, n_oracle={"quick": 400, "thorough": 5000},
     technique="Lean 4 proof (idempotence and permutation-only for ANY sorting function meeting the sort specification, by induction on depth) + Go/Lean correspondence of FormatFilter + byte-level idempotence/value/comment oracle",
     level_text="Theorems about the transliterated formatter for every sorter, depth, path and table: fmt(fmt x)=fmt x on documents with distinct keys; "
                "maps and whitelisted lists are only permuted, other lists keep their order; scalar text untouched. Comments ride on nodes (not in the "
-               "tree type) and byte-level claims rest on go-yaml: both decided by the oracle. UseSchema=true (schema-driven quoting) is oracle-free "
-               "and not claimed.",
+               "tree type) and byte-level claims rest on go-yaml: both decided by the oracle. Schema clause (UseSchema=true): theorems about the model "
+               "of FormatNonStringStyle (Kust.FmtSchema, tied by fmt.nonstring) — int-or-string fields untouched, strings stay strings, text never "
+               "changes, only boolean/integer/number schemas remove quotes, idempotent — with IsValueNonString a parameter; the schema LOOKUP per field "
+               "(kube-openapi) is third-party and decided by the oracle's table of built-in fields.",
     level_note=COMMON_NOTE + "Go sort.Sort is specified by Sorter (perm, sorted, fixes sorted input), sampled by the correspondence; go-yaml emit/parse not modelled.",
     assumptions=["Sorter.fix: sorting an ordered list returns it unchanged (pdqsort property, sampled)", "documents have distinct mapping keys (NoDupN)",
                  "UseSchema=false"],
